@@ -419,8 +419,11 @@ def worlds(draw, ninst=3, hostile_names=True, split_paths=False, foreign_ids=Fal
     explicit_base = root_base.startswith("http") and draw(st.integers(0, 3)) == 0
     if explicit_base:
         classes.append("explicit-base-differs-from-root-id")
+    alias = draw(st.integers(0, 5)) == 0
+    if alias:
+        classes.append("aliased-parts")
     return {"kind": "world", "draft": d, "root": root, "docs": docs, "via": via, "instances": xs,
-            "explicit_base": explicit_base, "classes": sorted(set(classes))}
+            "explicit_base": explicit_base, "alias": alias, "classes": sorted(set(classes))}
 
 
 # ---------------------------------------------------------------------------------------------
@@ -482,10 +485,19 @@ def build_validator(case, handler=None, **resolver_kwargs):
     d = case["draft"]
     cls = impl.CLS[d]
     root = copy.deepcopy(case["root"])
+    if case.get("alias"):
+        # equal parts of the root and of the stored documents are one Python object (schemas assembled from shared
+        # fragments): the same subschema text then lives under several base URIs at once
+        pool = {}
+        root = impl.alias_equal(root, pool)
+        case = dict(case, docs=dict((u, impl.alias_equal(copy.deepcopy(dd), pool)) for u, dd in case["docs"].items()))
+        _dc = lambda v: v       # noqa: E731  (keep the sharing)
+    else:
+        _dc = copy.deepcopy
     if case.get("explicit_base") and root_uri(case).startswith("http"):
         # the document was retrieved from somewhere else than its id says (RefResolver(base_uri, referrer, ...), as
         # the CLI's --base-uri does): its own id still is the base for everything inside it
-        store = dict((u + ("#" if case["via"].get(u) == "store#" else ""), copy.deepcopy(dd))
+        store = dict((u + ("#" if case["via"].get(u) == "store#" else ""), _dc(dd))
                      for u, dd in case["docs"].items() if case["via"].get(u) in ("store", "store#"))
         store[doc_uri(root_uri(case))] = root
         handler = handler or Handler(case)
@@ -496,7 +508,7 @@ def build_validator(case, handler=None, **resolver_kwargs):
         v._verif_handler = handler
         return v
     # "store#": the document is supplied under its URI with an empty fragment (common for draft 3/4 ids)
-    store = dict((u + ("#" if case["via"].get(u) == "store#" else ""), copy.deepcopy(dd))
+    store = dict((u + ("#" if case["via"].get(u) == "store#" else ""), _dc(dd))
                  for u, dd in case["docs"].items() if case["via"].get(u) in ("store", "store#"))
     handler = handler or Handler(case)
     resolver = impl.validators.RefResolver.from_schema(
